@@ -569,7 +569,8 @@ func init() {
 		// the allow-table entry of tableIter.Next (record kind mismatch = API misuse) holds
 		// only while an iterator is handed a block of the section it was asked for: the
 		// index descent must check the type of the block an index entry (table bytes) leads to
-		copyRules(p, r, checkSeekTables, "DT-DESCEND", "DESCEND-DECREASES")
+		copyRules(p, r, checkSeekTables, "DT-DESCEND")
+		copyRules(p, r, checkDescendDecreases, "DESCEND-DECREASES")
 		r.Engines = []string{"panicreach", "nilcontract", "bounds", "dtable"}
 		r.Explanation = "On everything reachable from the read API and NewReader: (a) every explicit panic, log.Panic/Fatal and unchecked type assertion is matched against a frozen allow-table of sites that only API misuse can reach (two entries are re-verified structurally on every run); (b) every function result that may be nil together with a nil error is nil-checked (dominating branch) before it is dereferenced, used as a receiver, wrapped in an interface or stored; (c) every index expression, slice expression and computed-size allocation in the byte decoders and block/table openers (22 functions) is an obligation discharged on every path of the abstract simulation from the path's linear facts (bounded Fourier-Motzkin over canonical terms, loop invariants by assume-and-check, value-changing integer conversions opaque); (d) data inflated from a zlib stream is read through a limit."
 		r.NotDecided = []string{"termination of loops other than the index descent (whose ranking function, the block offset, is checked by DESCEND-DECREASES)", "functions outside the decoder set (heap operations, writer)", "wrap-around of unsigned additions of offsets"}
